@@ -1654,10 +1654,10 @@ bool Parser::parseNAryExpression_AtOperator(ExpressionSyntax*& baseExpr,
                     diagReporter_.ExpectedFeature("GNU conditionals");
                 condExpr->whenTrueExpr_ = nullptr;
             }
-            else {
-                parseExpression(condExpr->whenTrueExpr_);
-            }
-            match(SyntaxKind::ColonToken, &condExpr->colonTkIdx_);
+            else if (!parseExpression(condExpr->whenTrueExpr_))
+                return false;
+            if (!match(SyntaxKind::ColonToken, &condExpr->colonTkIdx_))
+                return false;
         }
 
         ExpressionSyntax* nextExpr = nullptr;
